@@ -75,7 +75,7 @@ theorem clauseB_spec (f : Node → Bool) (hf : ∀ c, f c = true → Frag c) (c 
     · intro k0 k1 rest hkk
       have h2 := h.2
       rw [hk, hkk] at h2
-      simpa using h2
+      exact tok_of_isSome (by simpa using h2)
   · rename_i hn
     simp only [Bool.and_eq_true] at h
     obtain ⟨t, ht⟩ := tok_of_isSome h.1
@@ -123,57 +123,47 @@ theorem fragB_linkB_sound : ∀ k, (∀ n, fragB k n = true → Frag n) ∧ (∀
     refine ⟨?_, ?_⟩
     · intro n h
       unfold fragB at h
-      simp only [Bool.and_eq_true] at h
-      obtain ⟨ht0, h⟩ := h
-      by_cases hst : n.name = "statements"
-      · simp only [hst] at h
-        obtain ⟨kids, hk, hp⟩ := allKids_spec _ ihf _ h
-        exact Frag.statements n kids hst hk hp
-      by_cases hgd : n.name = "guard"
-      · simp only [hgd] at h
-        split at h
-        · rename_i c hc; exact Frag.guardN n c hgd hc (ihf _ h)
-        · cases h
-      have ht0' : n.tok.isSome = true := by simpa [hst, hgd] using ht0
-      obtain ⟨t, ht⟩ := tok_of_isSome ht0'
       split at h
-      all_goals try split at h
       all_goals try simp only [Bool.and_eq_true, bne_iff_ne, ne_eq, beq_iff_eq] at h
+      all_goals try split at h
+      all_goals try simp only [Bool.and_eq_true, bne_iff_ne, ne_eq, beq_iff_eq, and_true, and_false, Bool.false_eq_true] at h
       all_goals first
         | (cases h; done)
-        | (exact absurd ‹n.name = "statements"› hst)
-        | (exact absurd ‹n.name = "guard"› hgd)
-        | exact Frag.const n t ht nm
-        | exact Frag.number n t ht nm
-        | exact Frag.istring n t ht nm
-        | exact Frag.signal n t ht nm
-        | exact Frag.inert n t ht nm
-        | exact Frag.unary n t _ ht nm (by assumption) (ihf _ h)
-        | exact Frag.letN n t _ ht nm (by assumption) (ihf _ h)
-        | exact Frag.asN n t _ ht nm (by assumption) (ihf _ h.1.1) h.1.2 h.2
-        | exact Frag.binary n t _ _ ht nm (by assumption) (ihf _ h.1) (ihf _ h.2)
-        | exact Frag.assign n t _ _ ht nm (by assumption) (ihf _ h.1) (ihf _ h.2)
-        | exact Frag.loop n t _ _ ht nm (by assumption) (ihf _ h.1) (ihf _ h.2)
-        | exact Frag.ret0 n t ht nm (by assumption)
-        | exact Frag.ret1 n t _ ht nm (by assumption) (ihf _ h)
-        | (obtain ⟨kids, hk, hp⟩ := allKids_spec (P := fun c => Frag c ∧ c.name ≠ "statements" ∧ c.name ≠ "guard") _
-             (fun c hc => by
-               simp only [Bool.and_eq_true, bne_iff_ne, ne_eq] at hc
-               exact ⟨ihf _ hc.1.1, hc.1.2, hc.2⟩) _ h
-           exact Frag.list n t kids ht nm hk (fun c hc => (hp c hc).1) (fun c hc => (hp c hc).2.1) (fun c hc => (hp c hc).2.2))
-        | (obtain ⟨kids, hk, hp⟩ := allKids_spec _ (entryB_spec _ ihf) _ h
-           exact Frag.map n t kids ht nm hk hp)
-        | (obtain ⟨kids, hk, hp⟩ := allKids_spec _ ihl _ h
-           exact Frag.ident n t kids ht nm hk hp)
-        | (obtain ⟨pairs, hl, hg, hb⟩ := pairsB_spec _ ihf _ h
-           exact Frag.ifN n t pairs ht nm hl hg hb)
-        | (obtain ⟨cl, hk, hp⟩ := allKids_spec _ (clauseB_spec _ ihf) _ h.2
-           exact Frag.tryN n t _ cl ht nm (by rw [‹n.children = _›, hk]) (ihf _ h.1.1) h.1.2 hp)
-        | (obtain ⟨ps, hk, hp⟩ := allKids_spec _ (paramB_spec _ ihf) _ h.1.2
-           obtain ⟨t0, ht0'⟩ := tok_of_isSome h.1.1.2
-           exact Frag.funcNamed n t t0 _ _ _ ps ht nm (by assumption) h.1.1.1 ht0' hk hp (ihf _ h.2))
-        | (obtain ⟨ps, hk, hp⟩ := allKids_spec _ (paramB_spec _ ihf) _ h.1.2
-           exact Frag.funcAnon n t _ _ ps ht nm (by assumption) h.1.1 hk hp (ihf _ h.2))
+        | exact Frag.const n nm
+        | exact Frag.inert n nm
+        | exact Frag.guardN n _ nm (by assumption) (ihf _ h)
+        | (obtain ⟨t, ht⟩ := tok_of_isSome h
+           first | exact Frag.number n t ht nm | exact Frag.istring n t ht nm | exact Frag.signal n t ht nm
+                 | exact Frag.ret0 n t ht nm (by assumption))
+        | (obtain ⟨t, ht⟩ := tok_of_isSome h.1
+           first
+             | exact Frag.unary n t _ ht nm (by assumption) (ihf _ h.2)
+             | exact Frag.letN n t _ ht nm (by assumption) (ihf _ h.2)
+             | exact Frag.ret1 n t _ ht nm (by assumption) (ihf _ h.2)
+             | exact Frag.asN n t _ ht nm (by assumption) (ihf _ h.2.1) (tok_of_isSome h.2.2)
+             | exact Frag.binary n t _ _ ht nm (by assumption) (ihf _ h.2.1) (ihf _ h.2.2)
+             | exact Frag.assign n t _ _ ht nm (by assumption) (ihf _ h.2.1) (ihf _ h.2.2)
+             | exact Frag.loop n t _ _ ht nm (by assumption) (ihf _ h.2.1) (ihf _ h.2.2)
+             | (obtain ⟨kids, hk, hp⟩ := allKids_spec (P := fun c => Frag c ∧ ∃ tc, c.tok = some tc) _
+                  (fun c hc => by
+                    simp only [Bool.and_eq_true] at hc
+                    exact ⟨ihf _ hc.1, tok_of_isSome hc.2⟩) _ h.2
+                exact Frag.list n t kids ht nm hk (fun c hc => (hp c hc).1) (fun c hc => (hp c hc).2))
+             | (obtain ⟨kids, hk, hp⟩ := allKids_spec _ (entryB_spec _ ihf) _ h.2
+                exact Frag.map n t kids ht nm hk hp)
+             | (obtain ⟨kids, hk, hp⟩ := allKids_spec _ ihl _ h.2
+                exact Frag.ident n t kids ht nm hk hp)
+             | (obtain ⟨pairs, hl, hg, hb⟩ := pairsB_spec _ ihf _ h.2
+                exact Frag.ifN n t pairs ht nm hl hg hb)
+             | (obtain ⟨cl, hk, hp⟩ := allKids_spec _ (clauseB_spec _ ihf) _ h.2.2
+                exact Frag.tryN n t _ cl ht nm (by rw [‹n.children = _›, hk]) (ihf _ h.2.1.1) h.2.1.2 hp)
+             | (obtain ⟨ps, hk, hp⟩ := allKids_spec _ (paramB_spec _ ihf) _ h.2.1.2
+                obtain ⟨t0, ht0'⟩ := tok_of_isSome h.2.1.1.2
+                exact Frag.funcNamed n t t0 _ _ _ ps ht nm (by assumption) h.2.1.1.1 ht0' hk hp (ihf _ h.2.2))
+             | (obtain ⟨ps, hk, hp⟩ := allKids_spec _ (paramB_spec _ ihf) _ h.2.1.2
+                exact Frag.funcAnon n t _ _ ps ht nm (by assumption) h.2.1.1 hk hp (ihf _ h.2.2)))
+        | (obtain ⟨kids, hk, hp⟩ := allKids_spec _ ihf _ h
+           exact Frag.statements n kids nm hk hp)
         | skip
     · intro c h
       unfold linkB at h
